@@ -455,7 +455,7 @@ def run(ctx: Ctx) -> None:
     ctx.units["alternatives_validated"] = n9
 
     # ---- V10 one reading of the schemas ------------------------------------------------------------
-    ctx.rule("V10", "the schema files are read by one JSON-Schema draft everywhere: Validator.validate, evaluated with recording stand-ins for the jsonschema validator classes, builds a Draft4Validator for every root type with and without a version (the drafts differ on what the files contain: a numeric exclusiveMinimum is ignored by draft 4 and a bound from draft 6 on), so a block gets the same verdict alone, nested, versioned or not", 4)
+    ctx.rule("V10", "the schema files are read by one JSON-Schema draft everywhere: Validator.validate, evaluated with recording stand-ins for the jsonschema validator classes, builds a validator of the draft map.json declares for every root type with and without a version (the drafts differ on what the files contain: a numeric exclusiveMinimum is ignored by draft 4 and a bound from draft 6 on), so a block gets the same verdict alone, nested, versioned or not", 4)
     _one_draft(ctx, e)
 
     # ---- V8 printer dispatch / COMPLEX_TYPES ----------------------------------------------------
@@ -513,19 +513,25 @@ def _one_draft(ctx: Ctx, e) -> None:
                     return pai.FuncRef(None, builtin="jsonschema." + cls)
         return default
 
+    # the draft the schema files are written for: the one map.json declares
+    uri0 = e.S.raw.get("map.json", {}).get("$schema", "")
+    declared = next((cls for tag, cls in (("draft-03", "Draft3Validator"), ("draft-04", "Draft4Validator"), ("draft-06", "Draft6Validator"), ("draft-07", "Draft7Validator"), ("2019-09", "Draft201909Validator"), ("2020-12", "Draft202012Validator")) if tag in uri0), None)
+    if declared is None:
+        raise AnalysisError(f"anchor vanished: map.json no longer declares a JSON-Schema draft ($schema = {uri0!r})")
     for root in ("map", "label", "layer"):
         for ver in (None, 8.0):
             got: list = []
 
             def errors(I_, so, a, k, got=got):
-                v = a[1] if len(a) > 1 else k.get("validator")
-                got.append(v.attrs.get("draft") if isinstance(v, SObj) else repr(v))
+                # the validator object, wherever the private signature puts it
+                vs = [x for x in list(a) + list(k.values()) if isinstance(x, SObj) and x.pytype == "Validator"]
+                got.append(vs[0].attrs.get("draft") if len(vs) == 1 else f"{len(vs)} validator objects")
                 return []
 
             def schema_doc(I_, so, a, k, root=root):
                 d = HDict()
                 if root == "map":
-                    d["$schema"] = "http://json-schema.org/draft-04/schema#"  # only map.json declares one
+                    d["$schema"] = uri0  # only map.json declares one
                 d["properties"] = HDict()
                 return d
 
@@ -538,4 +544,4 @@ def _one_draft(ctx: Ctx, e) -> None:
             if len(outs) != 1 or outs[0].kind != "return" or len(got) != 1:
                 raise AnalysisError(f"validate({root}, version={ver}) not evaluable with recording validator classes: {[(o.kind, o.exc) for o in outs]} / {got}")
             used[(root, ver)] = got[0]
-            ctx.check(got[0] == "Draft4Validator", "V10", f"root {root}, version {ver}", lv, got[0], f"validate() of a {root.upper()} root with version={ver} reads the schema with {got[0]}, the other requests with Draft4Validator: the schema files mean different things under the two drafts (numeric exclusiveMinimum, ...), so the same block is valid in one setting and invalid in the other")
+            ctx.check(got[0] == declared, "V10", f"root {root}, version {ver}", lv, got[0], f"validate() of a {root.upper()} root with version={ver} reads the schema with {got[0]}, but map.json declares {declared} and the other requests use it: the schema files mean different things under the two drafts (numeric exclusiveMinimum, ...), so the same block is valid in one setting and invalid in the other")
